@@ -194,6 +194,85 @@ func numDocsOf(v ssa.Value) (ssa.Value, bool) {
 	return fa2.X, true
 }
 
+// isFillLoop: loop header b heads a loop that stores table[i] = c for i from 0
+// step 1 while i < numDocs / len(table), where c is a phi of b that enters the
+// loop with a value accepted by entryOK and advances by one per iteration.
+// Returns that phi (the counter after the loop) or nil.
+func isFillLoop(b *ssa.BasicBlock, table ssa.Value, entryOK func(ssa.Value) bool) *ssa.Phi {
+	inner := loopBody(b)
+	for ib := range inner {
+		for _, st := range storesIntoSlice(ib, table) {
+			idxV := st.Addr.(*ssa.IndexAddr).Index
+			cnt, _ := st.Val.(*ssa.Phi)
+			if cnt == nil || cnt.Block() != b || !inductionFromZero(idxV, b) {
+				continue
+			}
+			okStep := true
+			for i, pr := range b.Preds {
+				if b.Dominates(pr) {
+					if !isPlusOne(cnt.Edges[i], cnt) {
+						okStep = false
+					}
+				} else if !entryOK(cnt.Edges[i]) {
+					okStep = false
+				}
+			}
+			if ifi, ok := b.Instrs[len(b.Instrs)-1].(*ssa.If); ok && okStep {
+				if bin, ok := ifi.Cond.(*ssa.BinOp); ok && bin.Op == token.LSS && bin.X == idxV {
+					if _, ok := numDocsOf(bin.Y); ok {
+						return cnt
+					}
+					// or the length of the table itself (which is make([]uint64, numDocs))
+					if xx, name, ok := lenOrCapOf(bin.Y); ok && name == "len" && xx == table {
+						return cnt
+					}
+				}
+			}
+		}
+	}
+	return nil
+}
+
+// sequentialFiller: fn(table []uint64, next uint64) uint64 whose only loop is
+// a fill loop over the whole of its table parameter starting at its counter
+// parameter, and which returns the counter after the loop on every return.
+func sequentialFiller(fn *ssa.Function) (table, counter *ssa.Parameter, ok bool) {
+	if fn == nil || fn.Blocks == nil || fn.Signature.Results().Len() != 1 {
+		return nil, nil, false
+	}
+	table, counter = paramOfType(fn, "[]uint64"), paramOfType(fn, "uint64")
+	if table == nil || counter == nil {
+		return nil, nil, false
+	}
+	var after *ssa.Phi
+	for _, b := range fn.Blocks {
+		if !isLoopHeader(b) {
+			continue
+		}
+		if after != nil {
+			return nil, nil, false
+		}
+		after = isFillLoop(b, table, func(v ssa.Value) bool { return v == ssa.Value(counter) })
+		if after == nil {
+			return nil, nil, false
+		}
+		if xx, name, ok := lenOrCapOf(b.Instrs[len(b.Instrs)-1].(*ssa.If).Cond.(*ssa.BinOp).Y); !ok || name != "len" || xx != ssa.Value(table) {
+			return nil, nil, false
+		}
+	}
+	if after == nil {
+		return nil, nil, false
+	}
+	for _, b := range fn.Blocks {
+		if ret, ok := b.Instrs[len(b.Instrs)-1].(*ssa.Return); ok {
+			if resolveLoad(ret.Results[0]) != ssa.Value(after) {
+				return nil, nil, false
+			}
+		}
+	}
+	return table, counter, true
+}
+
 func init() {
 	register(&Rule{
 		Name:  "DOCNUMS-DEFINED",
@@ -411,6 +490,7 @@ func init() {
 			// fillers
 			fillCall := map[*ssa.BasicBlock]bool{}
 			fillLoop := map[*ssa.BasicBlock]bool{}
+			fillerCalls := map[*ssa.Call]bool{}
 			var counter *ssa.Phi
 			for _, ins := range segHdr.Instrs {
 				if phi, ok := ins.(*ssa.Phi); ok && strings.Contains(phi.Comment, "newDocNum") {
@@ -421,6 +501,16 @@ func init() {
 			threadWhy := "running counter phi not found in the per-segment loop header"
 			for b := range body {
 				for _, ins := range b.Instrs {
+					if call, ok := ins.(*ssa.Call); ok && call.Call.StaticCallee() != nil && call.Call.StaticCallee() != segFn {
+						// the fill loop extracted into a helper: filler(table, counter) counter'
+						if tp, cp, ok := sequentialFiller(call.Call.StaticCallee()); ok && argFor(&call.Call, tp) == ssa.Value(tableMk) {
+							fillCall[b] = true
+							fillerCalls[call] = true
+							if counter != nil && argFor(&call.Call, cp) != ssa.Value(counter) {
+								threadOK, threadWhy = false, fnName(call.Call.StaticCallee())+" is not given the running counter"
+							}
+						}
+					}
 					if call, ok := ins.(*ssa.Call); ok && call.Call.StaticCallee() == segFn && call.Call.Args[2] == ssa.Value(tableMk) {
 						fillCall[b] = true
 						if counter != nil && call.Call.Args[3] != ssa.Value(counter) {
@@ -430,37 +520,8 @@ func init() {
 				}
 				if b != segHdr && isLoopHeader(b) {
 					// inner fill loop: stores table[i] = counter', i from 0 step 1 while i < numDocs
-					inner := loopBody(b)
-					for ib := range inner {
-						for _, st := range storesIntoSlice(ib, tableMk) {
-							idxV := st.Addr.(*ssa.IndexAddr).Index
-							cnt, _ := st.Val.(*ssa.Phi)
-							if cnt == nil || cnt.Block() != b || !inductionFromZero(idxV, b) {
-								continue
-							}
-							idx := idxV
-							okStep := true
-							for i, pr := range b.Preds {
-								if b.Dominates(pr) {
-									if !isPlusOne(cnt.Edges[i], cnt) {
-										okStep = false
-									}
-								} else if counter != nil && cnt.Edges[i] != ssa.Value(counter) {
-									okStep = false
-								}
-							}
-							if ifi, ok := b.Instrs[len(b.Instrs)-1].(*ssa.If); ok && okStep {
-								if bin, ok := ifi.Cond.(*ssa.BinOp); ok && bin.Op == token.LSS && bin.X == idx {
-									if _, ok := numDocsOf(bin.Y); ok {
-										fillLoop[b] = true
-									}
-									// or the length of the table itself (which is make([]uint64, numDocs))
-									if xx, name, ok := lenOrCapOf(bin.Y); ok && name == "len" && xx == ssa.Value(tableMk) {
-										fillLoop[b] = true
-									}
-								}
-							}
-						}
+					if isFillLoop(b, tableMk, func(v ssa.Value) bool { return counter == nil || v == ssa.Value(counter) }) != nil {
+						fillLoop[b] = true
 					}
 				}
 			}
@@ -482,6 +543,10 @@ func init() {
 					case *ssa.Extract:
 						if call, ok := x.Tuple.(*ssa.Call); !ok || call.Call.StaticCallee() != segFn || x.Index != 0 {
 							threadOK, threadWhy = false, "the counter reaching the next segment is not the result of mergeStoredAndRemapSegment"
+						}
+					case *ssa.Call:
+						if !fillerCalls[x] {
+							threadOK, threadWhy = false, "the counter reaching the next segment is the result of "+x.String()+", not of a fill of this segment's table"
 						}
 					default:
 						threadOK, threadWhy = false, "the counter reaching the next segment is "+e.String()
